@@ -89,8 +89,6 @@ theorem fullTrace_eq_events (v : Val) : fullTrace v = events [] v := by
 
 /-! ### pre-events = hooked positions in pre-order, post-events = the same positions in post-order -/
 
-def pres (es : List Ev) : List Pos := (es.filter (fun e => !e.post)).map (·.pos)
-def posts (es : List Ev) : List Pos := (es.filter (fun e => e.post)).map (·.pos)
 
 @[simp] theorem pres_append (a b : List Ev) : pres (a ++ b) = pres a ++ pres b := by simp [pres]
 @[simp] theorem posts_append (a b : List Ev) : posts (a ++ b) = posts a ++ posts b := by simp [posts]
@@ -168,6 +166,220 @@ theorem dyck_eventsSeq : ∀ (rp : List Nat) (i : Nat) (xs : List Val) (st : Lis
     simp only [eventsSeq, List.append_assoc]
     rw [dyck_events (i :: rp) v st _]
     exact dyck_eventsSeq rp (i + 1) more st rest
+end
+
+/-! ### every hooked position is listed once -/
+
+/-- `p` lies at or below the path `rp` -/
+def Under (rp : List Nat) (p : Pos) : Prop := ∃ q, p.path = q ++ rp
+
+theorem under_child {i : Nat} {rp : List Nat} {p : Pos} (h : Under (i :: rp) p) : Under rp p := by
+  obtain ⟨q, hq⟩ := h
+  exact ⟨q ++ [i], by simp [hq]⟩
+
+theorem under_child_ne {i : Nat} {rp : List Nat} {p : Pos} (h : Under (i :: rp) p) : p.path ≠ rp := by
+  obtain ⟨q, hq⟩ := h
+  intro hc
+  have := congrArg List.length hq
+  rw [hc] at this
+  simp at this
+  omega
+
+theorem under_sibling {i j : Nat} {rp : List Nat} {p : Pos} (h1 : Under (i :: rp) p) (h2 : Under (j :: rp) p) : i = j := by
+  obtain ⟨q, hq⟩ := h1
+  obtain ⟨q', hq'⟩ := h2
+  rw [hq] at hq'
+  have := List.append_inj_right' hq' (by simp)
+  simpa using this
+
+mutual
+theorem under_pre : ∀ (rp : List Nat) (v : Val) (p : Pos), p ∈ hookedPreorder rp v →
+    Under rp p ∧ (p.path = rp → p.field = false)
+  | rp, .leaf _, p, h => by simp [hookedPreorder] at h
+  | rp, .node _ _ hk kids, p, h => by
+    simp only [hookedPreorder, List.mem_append] at h
+    rcases h with h | h
+    · cases hk with
+      | none => simp [optPos] at h
+      | some hh =>
+        simp [optPos] at h
+        subst h
+        exact ⟨⟨[], by simp⟩, fun _ => rfl⟩
+    · obtain ⟨j, _, hu⟩ := under_preKids rp 0 kids p h
+      exact ⟨under_child hu, fun hc => absurd hc (under_child_ne hu)⟩
+  | rp, .seq xs, p, h => by
+    simp only [hookedPreorder] at h
+    obtain ⟨j, _, hu⟩ := under_preSeq rp 0 xs p h
+    exact ⟨under_child hu, fun hc => absurd hc (under_child_ne hu)⟩
+theorem under_preKids : ∀ (rp : List Nat) (i : Nat) (ks : List (Option Nat × Val)) (p : Pos),
+    p ∈ hookedPreKids rp i ks → ∃ j, i ≤ j ∧ Under (j :: rp) p
+  | rp, i, [], p, h => by simp [hookedPreKids] at h
+  | rp, i, (fh, v) :: rest, p, h => by
+    simp only [hookedPreKids, List.mem_append] at h
+    rcases h with h | h | h
+    · cases fh with
+      | none => simp [optPos] at h
+      | some hh =>
+        simp [optPos] at h
+        subst h
+        exact ⟨i, Nat.le_refl _, ⟨[], by simp⟩⟩
+    · exact ⟨i, Nat.le_refl _, (under_pre (i :: rp) v p h).1⟩
+    · obtain ⟨j, hj, hu⟩ := under_preKids rp (i + 1) rest p h
+      exact ⟨j, by omega, hu⟩
+theorem under_preSeq : ∀ (rp : List Nat) (i : Nat) (xs : List Val) (p : Pos),
+    p ∈ hookedPreSeq rp i xs → ∃ j, i ≤ j ∧ Under (j :: rp) p
+  | rp, i, [], p, h => by simp [hookedPreSeq] at h
+  | rp, i, v :: rest, p, h => by
+    simp only [hookedPreSeq, List.mem_append] at h
+    rcases h with h | h
+    · exact ⟨i, Nat.le_refl _, (under_pre (i :: rp) v p h).1⟩
+    · obtain ⟨j, hj, hu⟩ := under_preSeq rp (i + 1) rest p h
+      exact ⟨j, by omega, hu⟩
+end
+
+theorem nodup_optPos (h : Option Nat) (f : Bool) (rp : List Nat) : (optPos h f rp).Nodup := by
+  cases h <;> simp [optPos]
+
+mutual
+theorem nodup_pre : ∀ (rp : List Nat) (v : Val), (hookedPreorder rp v).Nodup
+  | rp, .leaf _ => by simp [hookedPreorder]
+  | rp, .node _ _ hk kids => by
+    simp only [hookedPreorder]
+    refine List.nodup_append.mpr ⟨nodup_optPos _ _ _, nodup_preKids rp 0 kids, ?_⟩
+    intro a ha b hb hab
+    subst hab
+    cases hk with
+    | none => simp [optPos] at ha
+    | some hh =>
+      simp [optPos] at ha
+      obtain ⟨j, _, hu⟩ := under_preKids rp 0 kids a hb
+      exact under_child_ne hu (by rw [ha])
+  | rp, .seq xs => by simp only [hookedPreorder]; exact nodup_preSeq rp 0 xs
+theorem nodup_preKids : ∀ (rp : List Nat) (i : Nat) (ks : List (Option Nat × Val)), (hookedPreKids rp i ks).Nodup
+  | rp, i, [] => by simp [hookedPreKids]
+  | rp, i, (fh, v) :: rest => by
+    simp only [hookedPreKids]
+    have hrest : ∀ a, a ∈ hookedPreKids rp (i + 1) rest → ¬ Under (i :: rp) a := by
+      intro a ha hu
+      obtain ⟨j, hj, hu'⟩ := under_preKids rp (i + 1) rest a ha
+      have := under_sibling hu hu'
+      omega
+    refine List.nodup_append.mpr ⟨nodup_optPos _ _ _, ?_, ?_⟩
+    · refine List.nodup_append.mpr ⟨nodup_pre (i :: rp) v, nodup_preKids rp (i + 1) rest, ?_⟩
+      intro a ha b hb hab
+      subst hab
+      exact hrest a hb (under_pre (i :: rp) v a ha).1
+    · intro a ha b hb hab
+      subst hab
+      cases fh with
+      | none => simp [optPos] at ha
+      | some hh =>
+        simp [optPos] at ha
+        rcases List.mem_append.mp hb with hb | hb
+        · have := (under_pre (i :: rp) v a hb).2 (by rw [ha])
+          rw [ha] at this
+          simp at this
+        · exact hrest a hb ⟨[], by rw [ha]; simp⟩
+theorem nodup_preSeq : ∀ (rp : List Nat) (i : Nat) (xs : List Val), (hookedPreSeq rp i xs).Nodup
+  | rp, i, [] => by simp [hookedPreSeq]
+  | rp, i, v :: rest => by
+    simp only [hookedPreSeq]
+    refine List.nodup_append.mpr ⟨nodup_pre (i :: rp) v, nodup_preSeq rp (i + 1) rest, ?_⟩
+    intro a ha b hb hab
+    subst hab
+    obtain ⟨j, hj, hu'⟩ := under_preSeq rp (i + 1) rest a hb
+    have := under_sibling (under_pre (i :: rp) v a ha).1 hu'
+    omega
+end
+
+/-! ### the mutating walk with identity callbacks is the read-only walk and returns the tree -/
+
+theorem optCallM_id (brk : Nat → Bool) (h : Option Nat) (post field : Bool) (rp : List Nat) (v : Val) (s : St) :
+    optCallM cbId brk h post field rp v s = ((optCall brk h post field rp s).1, v, (optCall brk h post field rp s).2) := by
+  cases h <;> simp [optCallM, optCall, callM, call, cbId]
+
+mutual
+theorem walkM_id (brk : Nat → Bool) : ∀ (v : Val) (f : Nat) (rp : List Nat) (s : St), size v ≤ f →
+    walkM cbId brk f rp v s = some ((walk brk rp v s).1, v, (walk brk rp v s).2)
+  | .leaf d, f, rp, s, hf => by
+    cases f with
+    | zero => simp [size] at hf
+    | succ f => simp [walkM, walk]
+  | .seq xs, f, rp, s, hf => by
+    cases f with
+    | zero => simp [size] at hf
+    | succ f =>
+      have ih := walkSeqM_id brk xs f rp 0 s (by simp [size] at hf; omega)
+      simp [walkM, walk, ih]
+  | .node t d hk kids, f, rp, s, hf => by
+    cases f with
+    | zero => simp [size] at hf
+    | succ f =>
+      have ih := fun s' => walkKidsM_id brk kids f rp 0 s' (by simp [size] at hf; omega)
+      simp only [walkM, walk, andThen, optCallM_id, kidsOf, setKids, ih]
+      split
+      · simp_all
+      · split <;> simp_all
+theorem walkKidsM_id (brk : Nat → Bool) : ∀ (ks : List (Option Nat × Val)) (f : Nat) (rp : List Nat) (i : Nat) (s : St),
+    sizeKids ks ≤ f →
+    walkKidsM cbId brk f rp i ks s = some ((walkKids brk rp i ks s).1, ks, (walkKids brk rp i ks s).2)
+  | [], f, rp, i, s, hf => by
+    cases f with
+    | zero => simp [sizeKids] at hf
+    | succ f => simp [walkKidsM, walkKids]
+  | (fh, v) :: rest, f, rp, i, s, hf => by
+    cases f with
+    | zero => simp [sizeKids] at hf
+    | succ f =>
+      have ih1 := fun s' => walkM_id brk v f (i :: rp) s' (by simp [sizeKids] at hf; omega)
+      have ih2 := fun s' => walkKidsM_id brk rest f rp (i + 1) s' (by simp [sizeKids] at hf; omega)
+      simp only [walkKidsM, walkKids, andThen, optCallM_id, ih1, ih2]
+      split
+      · simp_all
+      · split
+        · simp_all
+        · split <;> simp_all
+theorem walkSeqM_id (brk : Nat → Bool) : ∀ (xs : List Val) (f : Nat) (rp : List Nat) (i : Nat) (s : St),
+    sizeSeq xs ≤ f →
+    walkSeqM cbId brk f rp i xs s = some ((walkSeq brk rp i xs s).1, xs, (walkSeq brk rp i xs s).2)
+  | [], f, rp, i, s, hf => by
+    cases f with
+    | zero => simp [sizeSeq] at hf
+    | succ f => simp [walkSeqM, walkSeq]
+  | v :: rest, f, rp, i, s, hf => by
+    cases f with
+    | zero => simp [sizeSeq] at hf
+    | succ f =>
+      have ih1 := fun s' => walkM_id brk v f (i :: rp) s' (by simp [sizeSeq] at hf; omega)
+      have ih2 := fun s' => walkSeqM_id brk rest f rp (i + 1) s' (by simp [sizeSeq] at hf; omega)
+      simp only [walkSeqM, walkSeq, andThen, ih1, ih2]
+      split <;> simp_all
+end
+
+/-! ### post-order lists the same positions -/
+
+mutual
+theorem perm_post_pre : ∀ (rp : List Nat) (v : Val), (hookedPostorder rp v).Perm (hookedPreorder rp v)
+  | rp, .leaf _ => by simp [hookedPostorder, hookedPreorder]
+  | rp, .node _ _ hk kids => by
+    simp only [hookedPostorder, hookedPreorder]
+    exact ((perm_post_preKids rp 0 kids).append_right _).trans List.perm_append_comm
+  | rp, .seq xs => by simp only [hookedPostorder, hookedPreorder]; exact perm_post_preSeq rp 0 xs
+theorem perm_post_preKids : ∀ (rp : List Nat) (i : Nat) (ks : List (Option Nat × Val)),
+    (hookedPostKids rp i ks).Perm (hookedPreKids rp i ks)
+  | rp, i, [] => by simp [hookedPostKids, hookedPreKids]
+  | rp, i, (fh, v) :: rest => by
+    simp only [hookedPostKids, hookedPreKids]
+    have h1 := perm_post_pre (i :: rp) v
+    have h2 := perm_post_preKids rp (i + 1) rest
+    rw [← List.append_assoc, ← List.append_assoc]
+    exact ((List.perm_append_comm.trans ((h1.symm.append_left _).symm)).append h2)
+theorem perm_post_preSeq : ∀ (rp : List Nat) (i : Nat) (xs : List Val),
+    (hookedPostSeq rp i xs).Perm (hookedPreSeq rp i xs)
+  | rp, i, [] => by simp [hookedPostSeq, hookedPreSeq]
+  | rp, i, v :: rest => by
+    simp only [hookedPostSeq, hookedPreSeq]
+    exact (perm_post_pre (i :: rp) v).append (perm_post_preSeq rp (i + 1) rest)
 end
 
 end SqlVerif.Visit
